@@ -173,8 +173,10 @@ def run_case(case):
         discs.append(Disc('raises', '%s %s: receive raised %s: %s' % (framing, kind, type(e).__name__, e), finding))
         return Outcome(discs, labels, nt)
     if len(got) != 1:
-        discs.append(Disc('deliveries', '%s %s uid=%d: %d messages delivered for one frame %s' % (framing, kind, uid, len(got), packet.hex()[:100]),
-                          _kf_framing(framing, kind, f, pdu, uid, 'deliveries')))
+        finding = _kf_framing(framing, kind, f, pdu, uid, 'deliveries')
+        if finding is None and len(got) == 0 and proxy.seen == [pdu]:
+            finding = _kf_codec(kind, f)      # the framer handed over exactly the PDU; the codec could not decode its own output
+        discs.append(Disc('deliveries', '%s %s uid=%d: %d messages delivered for one frame %s' % (framing, kind, uid, len(got), packet.hex()[:100]), finding))
     elif proxy.seen != [pdu]:
         discs.append(Disc('decoder-bytes', '%s %s: decoder was handed %s, PDU is %s' % (framing, kind, [s.hex()[:60] for s in proxy.seen], pdu.hex()[:60]),
                           _kf_framing(framing, kind, f, pdu, uid, 'decoder-bytes')))
